@@ -35,7 +35,7 @@ CONTRACTS = {
     ('cnfgen/localtypes.py', 'non_negative_int'): {'inline_always': True},
     (G, 'Graph.has_edge'): {
         'property': ['C16'],
-        'params': {'u': 'int', 'v': 'int'},
+        'params': {'u': 'int', 'v': 'int'}, 'returns': 'bool',
         'ensures': ['result == ((u, v) in self.edgeset)'] + UNCHANGED,
     },
     (G, 'Graph.add_edge'): {
@@ -59,4 +59,190 @@ CONTRACTS = {
             'implies((u, v) in old(self.edgeset), self.adjlist == old(self.adjlist) and self.edgeset == old(self.edgeset))',
         ] + INV,
     },
+    (G, 'Graph.remove_edge'): {
+        'property': ['C16'],
+        'params': {'u': 'int', 'v': 'int'},
+        'inline': ['Graph.has_edge'],
+        'ghost_code': [
+            ('self.adjlist[u].remove(v)',
+             'self.idx = lam2(lambda x, w: ite(x == u, self.idx[x, w] - ite(self.idx[x, w] > self.idx[u, v], 1, 0), self.idx[x, w]))'),
+            ('self.adjlist[v].remove(u)',
+             'self.idx = lam2(lambda x, w: ite(x == v, self.idx[x, w] - ite(self.idx[x, w] > self.idx[v, u], 1, 0), self.idx[x, w]))'),
+        ],
+        'ensures': [
+            'self.n == old(self.n)',
+            # exactly the edge {u,v} disappears (nothing happens if it is not there; never an exception)
+            'forall(lambda x, y: ((x, y) in self.edgeset) == (((x, y) in old(self.edgeset)) and not (x == u and y == v) and not (x == v and y == u)))',
+            'self.m == old(self.m) - ite((u, v) in old(self.edgeset), 1, 0)',
+            'implies(not ((u, v) in old(self.edgeset)), self.adjlist == old(self.adjlist) and self.edgeset == old(self.edgeset))',
+        ] + INV,
+    },
+    (G, 'Graph.update_vertex_number'): {
+        'property': ['C16'],
+        'params': {'new_value': 'int'},
+        'raises': {'ValueError': 'new_value < 0'},
+        'ensures_on_raise': UNCHANGED,
+        'loops': {0: {'ghost_at_entry': {'A0': 'self.adjlist'}, 'ghost_at_entry_vals': {'N0': 'self.n'},
+                      'inv': ['len(self.adjlist) == N0 + 1 + _it', 'self.n == N0',
+                              'forall(lambda u: implies(N0 < u and u <= N0 + _it, len(self.adjlist[u]) == 0))',
+                              'forall(lambda u: implies(0 <= u and u <= N0, len(self.adjlist[u]) == len(A0[u])))',
+                              'forall(lambda u, k: implies(0 <= u and u <= N0, self.adjlist[u][k] == A0[u][k]))']}},
+        'ensures': [
+            'self.n == zmax(old(self.n), new_value)',       # the vertex count only grows
+            'self.edgeset == old(self.edgeset)', 'self.m == old(self.m)',   # same edges
+            'forall(lambda u: implies(old(self.n) < u and u <= self.n, len(self.adjlist[u]) == 0))',   # new vertices are isolated
+        ] + INV,
+    },
+    (G, 'Graph.degree'): {
+        'property': ['C16'],
+        'params': {'u': 'int'}, 'returns': 'int',
+        'raises': {'ValueError': 'not (1 <= u and u <= self.n)'},
+        'ensures': ['result == len(self.adjlist[u])'] + UNCHANGED,
+    },
+    (G, 'Graph.number_of_edges'): {
+        'property': ['C16'], 'params': {}, 'returns': 'int',
+        'ensures': ['2 * result == card2(self.edgeset)'] + UNCHANGED,
+    },
+    (G, 'Graph.number_of_vertices'): {
+        'property': ['C16'], 'params': {}, 'returns': 'int',
+        'ensures': ['result == self.n'] + UNCHANGED,
+    },
 }
+
+# ---------------------------------------------------------------------------------------------------------
+# DirectedGraph: predecessor / successor lists, edge set, edge counter, acyclicity flag
+D_INV = [
+    'self.n >= 0', 'len(self.pred) == self.n + 1', 'len(self.succ) == self.n + 1',
+    'forall(lambda u: implies(1 <= u and u <= self.n, len(self.pred[u]) >= 0 and len(self.succ[u]) >= 0))',
+    'forall(lambda u, k, j: implies(1 <= u and u <= self.n and 0 <= k and k < j and j < len(self.succ[u]), self.succ[u][k] < self.succ[u][j]))',
+    'forall(lambda u, k, j: implies(1 <= u and u <= self.n and 0 <= k and k < j and j < len(self.pred[u]), self.pred[u][k] < self.pred[u][j]))',
+    'forall(lambda u, k: implies(1 <= u and u <= self.n and 0 <= k and k < len(self.succ[u]), '
+    '1 <= self.succ[u][k] and self.succ[u][k] <= self.n and ((u, self.succ[u][k]) in self.edgeset)))',
+    'forall(lambda u, k: implies(1 <= u and u <= self.n and 0 <= k and k < len(self.pred[u]), '
+    '1 <= self.pred[u][k] and self.pred[u][k] <= self.n and ((self.pred[u][k], u) in self.edgeset)))',
+    'forall(lambda u, v: implies((u, v) in self.edgeset, 1 <= u and u <= self.n and 1 <= v and v <= self.n and '
+    '0 <= self.idxs[u, v] and self.idxs[u, v] < len(self.succ[u]) and self.succ[u][self.idxs[u, v]] == v and '
+    '0 <= self.idxp[v, u] and self.idxp[v, u] < len(self.pred[v]) and self.pred[v][self.idxp[v, u]] == u))',
+    'self.m == card2(self.edgeset)',
+    # the property's acyclicity clause: the flag is set exactly when every inserted edge goes upward
+    'self.still_a_dag == forall(lambda u, v: implies((u, v) in self.edgeset, u < v))',
+]
+CLASSMODELS['DirectedGraphRep'] = {
+    'file': G, 'real': 'DirectedGraph',
+    'fields': {'n': 'int', 'm': 'int', 'pred': 'intlist2', 'succ': 'intlist2', 'edgeset': 'pairset', 'still_a_dag': 'bool',
+               'idxs': 'ghostfun2', 'idxp': 'ghostfun2'},
+    'invariant': D_INV}
+D_UNCHANGED = ['self.n == old(self.n)', 'self.m == old(self.m)', 'self.pred == old(self.pred)', 'self.succ == old(self.succ)',
+               'self.edgeset == old(self.edgeset)', 'self.still_a_dag == old(self.still_a_dag)']
+
+CONTRACTS.update({
+    (G, 'DirectedGraphRep.has_edge'): {
+        'property': ['C16'], 'params': {'self': 'obj:DirectedGraphRep', 'src': 'int', 'dest': 'int'}, 'returns': 'bool',
+        'source': (G, 'DirectedGraph.has_edge'),
+        'ensures': ['result == ((src, dest) in self.edgeset)'] + D_UNCHANGED,
+    },
+    (G, 'DirectedGraphRep.add_edge'): {
+        'property': ['C16', 'C15'],
+        'source': (G, 'DirectedGraph.add_edge'),
+        'params': {'self': 'obj:DirectedGraphRep', 'src': 'int', 'dest': 'int'},
+        'raises': {'ValueError': 'not (1 <= src and src <= self.n and 1 <= dest and dest <= self.n)'},
+        'ensures_on_raise': D_UNCHANGED,
+        'ghost_code': [
+            ('self.pred[dest].insert(pos, src)',
+             'self.idxp = lam2(lambda x, w: ite(x == dest and w == src, pos, ite(x == dest, self.idxp[x, w] + ite(self.idxp[x, w] >= pos, 1, 0), self.idxp[x, w])))'),
+            ('self.succ[src].insert(pos, dest)',
+             'self.idxs = lam2(lambda x, w: ite(x == src and w == dest, pos, ite(x == src, self.idxs[x, w] + ite(self.idxs[x, w] >= pos, 1, 0), self.idxs[x, w])))'),
+        ],
+        'ensures': [
+            'self.n == old(self.n)',
+            'forall(lambda x, y: ((x, y) in self.edgeset) == (((x, y) in old(self.edgeset)) or (x == src and y == dest)))',
+            'self.m == old(self.m) + ite((src, dest) in old(self.edgeset), 0, 1)',
+            'implies((src, dest) in old(self.edgeset), self.pred == old(self.pred) and self.succ == old(self.succ) and self.edgeset == old(self.edgeset))',
+            # what the DAG constructions (contracts/graphs_dag.py) assume about the flag
+            'self.still_a_dag == (old(self.still_a_dag) and src < dest)',
+        ] + D_INV,
+    },
+    (G, 'DirectedGraphRep.is_dag'): {
+        'property': ['C16'], 'params': {'self': 'obj:DirectedGraphRep'}, 'returns': 'bool',
+        'source': (G, 'DirectedGraph.is_dag'),
+        'ensures': ['result == forall(lambda u, v: implies((u, v) in self.edgeset, u < v))'] + D_UNCHANGED,
+    },
+    (G, 'DirectedGraphRep.in_degree'): {
+        'property': ['C16'], 'params': {'self': 'obj:DirectedGraphRep', 'u': 'int'}, 'returns': 'int',
+        'source': (G, 'DirectedGraph.in_degree'),
+        'raises': {'ValueError': 'not (1 <= u and u <= self.n)'},
+        'ensures': ['result == len(self.pred[u])'] + D_UNCHANGED,
+    },
+    (G, 'DirectedGraphRep.out_degree'): {
+        'property': ['C16'], 'params': {'self': 'obj:DirectedGraphRep', 'v': 'int'}, 'returns': 'int',
+        'source': (G, 'DirectedGraph.out_degree'),
+        'raises': {'ValueError': 'not (1 <= v and v <= self.n)'},
+        'ensures': ['result == len(self.succ[v])'] + D_UNCHANGED,
+    },
+})
+
+# ---------------------------------------------------------------------------------------------------------
+# BipartiteGraph: ladj / radj are dicts vertex -> sorted list (a missing key means no neighbour)
+B_INV = [
+    'self.lorder >= 0', 'self.rorder >= 0',
+    'forall(lambda u: implies(u in self.ladj, 1 <= u and u <= self.lorder and len(self.ladj[u]) >= 0))',
+    'forall(lambda v: implies(v in self.radj, 1 <= v and v <= self.rorder and len(self.radj[v]) >= 0))',
+    'forall(lambda u, k, j: implies((u in self.ladj) and 0 <= k and k < j and j < len(self.ladj[u]), self.ladj[u][k] < self.ladj[u][j]))',
+    'forall(lambda v, k, j: implies((v in self.radj) and 0 <= k and k < j and j < len(self.radj[v]), self.radj[v][k] < self.radj[v][j]))',
+    'forall(lambda u, k: implies((u in self.ladj) and 0 <= k and k < len(self.ladj[u]), '
+    '1 <= self.ladj[u][k] and self.ladj[u][k] <= self.rorder and ((u, self.ladj[u][k]) in self.edgeset)))',
+    'forall(lambda v, k: implies((v in self.radj) and 0 <= k and k < len(self.radj[v]), '
+    '1 <= self.radj[v][k] and self.radj[v][k] <= self.lorder and ((self.radj[v][k], v) in self.edgeset)))',
+    'forall(lambda u, v: implies((u, v) in self.edgeset, 1 <= u and u <= self.lorder and 1 <= v and v <= self.rorder and '
+    '(u in self.ladj) and 0 <= self.idxl[u, v] and self.idxl[u, v] < len(self.ladj[u]) and self.ladj[u][self.idxl[u, v]] == v and '
+    '(v in self.radj) and 0 <= self.idxr[v, u] and self.idxr[v, u] < len(self.radj[v]) and self.radj[v][self.idxr[v, u]] == u))',
+]
+CLASSMODELS['BipartiteGraphRep'] = {
+    'file': G, 'real': 'BipartiteGraph',
+    'fields': {'lorder': 'int', 'rorder': 'int', 'ladj': 'intdict2', 'radj': 'intdict2', 'edgeset': 'pairset',
+               'idxl': 'ghostfun2', 'idxr': 'ghostfun2'},
+    'invariant': B_INV}
+B_UNCHANGED = ['self.lorder == old(self.lorder)', 'self.rorder == old(self.rorder)', 'self.ladj == old(self.ladj)',
+               'self.radj == old(self.radj)', 'self.edgeset == old(self.edgeset)']
+
+CONTRACTS.update({
+    (G, 'BipartiteGraphRep.has_edge'): {
+        'property': ['C16'], 'params': {'self': 'obj:BipartiteGraphRep', 'u': 'int', 'v': 'int'}, 'returns': 'bool',
+        'source': (G, 'BipartiteGraph.has_edge'),
+        'ensures': ['result == ((u, v) in self.edgeset)'] + B_UNCHANGED,
+    },
+    (G, 'BipartiteGraphRep.add_edge'): {
+        'property': ['C16'],
+        'source': (G, 'BipartiteGraph.add_edge'),
+        'params': {'self': 'obj:BipartiteGraphRep', 'u': 'int', 'v': 'int'},
+        'raises': {'ValueError': 'not (1 <= u and u <= self.lorder and 1 <= v and v <= self.rorder)'},
+        'ensures_on_raise': B_UNCHANGED,
+        'ghost_code': [
+            ('self.ladj[u].insert(pv, v)',
+             'self.idxl = lam2(lambda x, w: ite(x == u and w == v, pv, ite(x == u, self.idxl[x, w] + ite(self.idxl[x, w] >= pv, 1, 0), self.idxl[x, w])))'),
+            ('self.radj[v].insert(pu, u)',
+             'self.idxr = lam2(lambda x, w: ite(x == v and w == u, pu, ite(x == v, self.idxr[x, w] + ite(self.idxr[x, w] >= pu, 1, 0), self.idxr[x, w])))'),
+        ],
+        'ensures': [
+            'self.lorder == old(self.lorder)', 'self.rorder == old(self.rorder)',
+            'forall(lambda x, y: ((x, y) in self.edgeset) == (((x, y) in old(self.edgeset)) or (x == u and y == v)))',
+            'implies((u, v) in old(self.edgeset), self.ladj == old(self.ladj) and self.radj == old(self.radj) and self.edgeset == old(self.edgeset))',
+        ] + B_INV,
+    },
+    (G, 'BipartiteGraphRep.number_of_edges'): {
+        'property': ['C16'], 'params': {'self': 'obj:BipartiteGraphRep'}, 'returns': 'int',
+        'source': (G, 'BipartiteGraph.number_of_edges'),
+        'ensures': ['result == card2(self.edgeset)'] + B_UNCHANGED,
+    },
+})
+
+for _side, _adj, _ord, _other in (('right_neighbors', 'ladj', 'lorder', 'u'), ('left_neighbors', 'radj', 'rorder', 'v')):
+    CONTRACTS[(G, 'BipartiteGraphRep.' + _side)] = {
+        'property': ['C16'], 'params': {'self': 'obj:BipartiteGraphRep', _other: 'int'},
+        'source': (G, 'BipartiteGraph.' + _side),
+        'raises': {'ValueError': 'not (1 <= {0} and {0} <= self.{1})'.format(_other, _ord)},
+        # a copy of the (sorted, duplicate-free by INV) adjacency list; empty for a vertex without neighbours
+        'ensures': ['len(result) == ite({0} in self.{1}, len(self.{1}[{0}]), 0)'.format(_other, _adj),
+                    'forall(lambda k: implies(({0} in self.{1}) and 0 <= k and k < len(result), result[k] == self.{1}[{0}][k]))'.format(_other, _adj)]
+        + B_UNCHANGED,
+    }
